@@ -153,6 +153,10 @@ def rand_protein_seq(r):
     n = r.randrange(4, 36)
     body = refgen.rand_protein(r, n, kr_rate=0.25, extra='U' if r.random() < 0.2 else '')
     body = ''.join('L' if (c == 'I' and r.random() < 0.3) else c for c in body)
+    if r.random() < 0.35:
+        # a trypsin-exception motif, so that the exception changes the digest
+        k = r.randrange(0, len(body) + 1)
+        body = body[:k] + r.choice(['CKD', 'DKD', 'CKH', 'CKY', 'CRK', 'RRH', 'RRR']) + body[k:]
     if r.random() < 0.6:
         body = 'M' + body
     if r.random() < 0.2:
@@ -206,6 +210,22 @@ def pool_level(rep, tier, work):
         d = os.path.join(work, f'ref{i}')
         paths = ref.write(d)
         c1, c2 = rand_cfg(r, rules), rand_cfg(r, rules)
+        if i % 2 == 1:
+            # the second parameter set differs from the first in exactly one field
+            if i % 4 == 1:
+                c1['rule'] = 'trypsin'; c1['exc'] = r.choice(['', 'trypsin_exception', 'auto'])
+            c2 = dict(c1)
+            field = 'exc' if i % 4 == 1 else r.choice(['misc', 'min_len', 'max_len', 'min_mw'])
+            if field == 'exc':
+                c2['exc'] = '' if c1['exc'] in ('trypsin_exception', 'auto') else 'trypsin_exception'
+            elif field == 'misc':
+                c2['misc'] = c1['misc'] + 1
+            elif field == 'min_len':
+                c2['min_len'] = c1['min_len'] + 1; c2['max_len'] = max(c2['max_len'], c2['min_len'])
+            elif field == 'max_len':
+                c2['max_len'] = c1['max_len'] + 2
+            else:
+                c2['min_mw'] = r.choice([x for x in ['0.00005', '300.00005', '500.00005', '800.00005'] if x != c1['min_mw']])
         while c2 == c1:
             c2 = rand_cfg(r, rules)
         ops = [dict(op='fly', p=c1), dict(op='generate', p=c1), dict(op='load', p=c1), dict(op='update', p=c2),
